@@ -271,6 +271,23 @@ def atomic_programs(repo):
     return {"fields": {k: {"type": v[0], "file": v[1]} for k, v in fields.items()}, "programs": progs}
 
 
+def store_outside_locks(classes, progs, outer=("S", "M", "C", "T"), inner="P"):
+    """requests that reach the store (lock class P) while holding none of the `outer` classes"""
+    out = []
+    for p in progs:
+        held = []
+        for k, c, i in p["events"]:
+            if k == "A":
+                if classes[c]["name"] == inner and not any(classes[h[0]]["name"] in outer for h in held):
+                    if p["name"] not in [o["request"] for o in out]:
+                        out.append({"request": p["name"], "store": lname(classes, (c, i)),
+                                    "holding": [lname(classes, h) for h in held]})
+                held.append((c, i))
+            elif k == "R" and (c, i) in held:
+                held.remove((c, i))
+    return out
+
+
 def coq_prog(p):
     names = {"A": "Acq", "R": "Rel", "T": "Touch"}
     return "[" + "; ".join("%s (%d, %d)" % (names[k], c, i) for k, c, i in p["events"]) + "]"
@@ -327,6 +344,15 @@ def write_coq(classes, progs, res, repo):
     L.append("    on it in source order (tools/gen_locks.py atomic_programs): Rmw = one read-modify-write event *)")
     L.append("Definition counter_progs : list (string * list aop) := [%s]." % "; ".join(
         '("%s.%s"%%string, [%s])' % (a["field"], a["function"], "; ".join(a["ops"])) for a in at["programs"]))
+    L.append("")
+    code = {v["name"]: c for c, v in classes.items()}
+    L.append("(** the store (MemoryKVVStore behind the persister), the node state, the structural classes *)")
+    L.append("Definition store_class : N := %d." % code.get("P", 0))
+    L.append("Definition state_class : N := %d." % code.get("S", 0))
+    L.append("Definition structural_classes : list N := [%s]." % "; ".join(str(code[n]) for n in ("S", "M", "C", "T") if n in code))
+    L.append("(** the allowlist requests (their store write must be inside the node-state section) *)")
+    L.append("Definition allowlist_progs : list program := [%s]." % "; ".join(
+        "p_" + p["name"] for p in progs if p["name"] not in excl and p["name"].startswith("allowlist_")))
     L.append("")
     L.append("(** class of the channel slots *)")
     slot = [c for c, v in classes.items() if v["name"] == "C"]
